@@ -227,16 +227,18 @@ pub(crate) mod kani_verif {
             assert!(r.is_err() && calls == 0, "malformed key: error, callback not invoked");
             assert!(SIGN_CALLS.load(Ordering::Relaxed) == 0, "malformed key: nothing signed");
         }
-        if shape >= 1 && shape <= 8 {
+        let valid_shape = shape >= 1 && shape <= 8;
+        if valid_shape {
             assert!(spec_successor(&blob).is_some(), "harness sanity: valid shapes are accepted by the specification");
-            kani::cover!(r.is_ok(), "success path reachable");
-            kani::cover!(calls == 1 && !cb_ok, "rejecting callback reachable");
-            kani::cover!(calls == 0, "internal failure path reachable");
-            kani::cover!(calls == 1 && seen[8] == 0xff && seen[16] == 0, "exhaustion (wiped successor) reachable");
         } else {
             assert!(spec_successor(&blob).is_none(), "harness sanity: malformed shapes are rejected by the specification");
-            kani::cover!(r.is_err(), "malformed key reachable");
         }
+        // reachability guards (trivially satisfied for the shapes they do not apply to)
+        kani::cover!(!valid_shape || r.is_ok(), "success path reachable");
+        kani::cover!(!valid_shape || (calls == 1 && !cb_ok), "rejecting callback reachable");
+        kani::cover!(!valid_shape || calls == 0, "internal failure path reachable");
+        kani::cover!(!valid_shape || (calls == 1 && seen[8] == 0xff && seen[16] == 0), "exhaustion (wiped successor) reachable");
+        kani::cover!(valid_shape || r.is_err(), "malformed key reachable");
     }
 
     macro_rules! protocol_harness {
@@ -247,14 +249,15 @@ pub(crate) mod kani_verif {
             #[kani::stub(crate::hss::definitions::HssPrivateKey::from, stub_hss_from)]
             #[kani::stub(crate::hss::signing::HssSignature::sign, stub_hss_sign)]
             #[kani::stub(crate::hss::signing::HssSignature::to_binary_representation, stub_sig_to_bytes)]
-            #[kani::unwind(10)]
+            #[kani::stub(crate::hss::reference_impl_private_key::ReferenceImplPrivateKey::increment, crate::hss::reference_impl_private_key::kani_verif::contract_outer_increment)]
+            #[kani::unwind(36)]
             fn $name() {
                 check_sign_protocol($via, $shape);
             }
         };
     }
     // ---- quick tier: 2-level build (smallest structures); thorough tier: default 8-level capacity (config w8)
-    // @h name=c04_core_l1 props=C04,C11,C05,C03 tier=quick kind=proved cfg=L2w8 timeout=900 funcs=hss_sign_core;ReferenceImplPrivateKey::from_binary_representation;ReferenceImplPrivateKey::to_binary_representation;ReferenceImplPrivateKey::increment;CompressedParameterSet::to contract="Ok => callback invoked exactly once, after signing, returned Ok, argument == successor blob (counter+1 / wiped); callback Err => Err; any failure => callback not invoked; every key blob with a valid 1-level list"
+    // @h name=c04_core_l1 props=C04,C11,C05,C03 tier=quick kind=proved cfg=L2w8 timeout=900 funcs=hss_sign_core;ReferenceImplPrivateKey::from_binary_representation;ReferenceImplPrivateKey::to_binary_representation;CompressedParameterSet::to contract="(callee ReferenceImplPrivateKey::increment by its contract, proved in c05_outer_inc_*) Ok => callback invoked exactly once, after signing, returned Ok, argument == successor blob (counter+1 / wiped); callback Err => Err; any failure => callback not invoked; every key blob with a valid 1-level list"
     protocol_harness!(c04_core_l1, false, 1);
     // @h name=c04_core_l2 props=C04,C11,C05,C03 tier=quick kind=proved cfg=L2w8 timeout=900 funcs=hss_sign_core contract="same, valid 2-level lists"
     protocol_harness!(c04_core_l2, false, 2);
